@@ -58,6 +58,7 @@ func recvOf(c ssa.CallInstruction) ssa.Value {
 // and against vstr of the receiver). Empty recvRe matches any. Deferred calls
 // are excluded unless includeDefer.
 func CallsTo(fn *ssa.Function, name, callee, recvRe string) Ev {
+	setIPContext(fn)
 	ev := Ev{Name: name, Fn: fn}
 	var re *regexp.Regexp
 	if recvRe != "" {
@@ -91,6 +92,7 @@ func CallsTo(fn *ssa.Function, name, callee, recvRe string) Ev {
 // CallsArg selects calls to callee whose argument #k (0-based, receiver
 // included for methods) matches re.
 func CallsArg(fn *ssa.Function, name, callee string, k int, argRe string) Ev {
+	setIPContext(fn)
 	ev := Ev{Name: name, Fn: fn}
 	re := regexp.MustCompile(argRe)
 	for _, c := range callsIn(fn) {
@@ -291,6 +293,7 @@ func (c *Ctx) SuccessRequiresEdges(rule string, fn *ssa.Function, name string, e
 // needFn resolves a function by name or records an undecided anchor.
 func (c *Ctx) needFn(rule, name string) *ssa.Function {
 	fn := c.P.Fn(name)
+	setIPContext(fn)
 	if fn == nil || fn.Blocks == nil {
 		c.Undecided(rule, "anchor:"+name, "", "anchored function "+name+" not found in the loaded program")
 		return nil
